@@ -241,7 +241,7 @@ func RunClientCase(cs map[string]any, id int, seed int64, tmp string) Result {
 		clientFlagMu.Lock()
 		flag.Set("tdx_guest_device_path", filepath.Join(tmp, "does-not-exist"))
 		var praw []byte
-		po := Guard(10*time.Second, func() error {
+		po := Guard(90*time.Second, func() error {
 			var err error
 			praw, err = client.GetRawQuote(pp, prd)
 			return err
@@ -252,7 +252,7 @@ func RunClientCase(cs map[string]any, id int, seed int64, tmp string) Result {
 	if via == "device" {
 		d := mkDev()
 		target = d
-		out = Guard(10*time.Second, func() error {
+		out = Guard(90*time.Second, func() error {
 			if prior != nil {
 				prior()
 			}
@@ -268,7 +268,7 @@ func RunClientCase(cs map[string]any, id int, seed int64, tmp string) Result {
 		prov = &scriptedProvider{kind: cs["prov"].(string), bytes: quote, err: errors.New("scripted provider failure"), rd: rd}
 		target = prov
 		run := func() {
-			out = Guard(10*time.Second, func() error {
+			out = Guard(90*time.Second, func() error {
 				if prior != nil {
 					prior()
 				}
@@ -335,7 +335,7 @@ func RunClientCase(cs map[string]any, id int, seed int64, tmp string) Result {
 			t2 = &scriptedProvider{kind: prov.kind, bytes: quote, err: prov.err, rd: rd}
 		}
 		var q any
-		o2 := Guard(10*time.Second, func() error {
+		o2 := Guard(90*time.Second, func() error {
 			var err error
 			q, err = client.GetQuote(t2, rd)
 			return err
